@@ -82,7 +82,12 @@ func ParsePath(path string) (PathType, PathSubType, error) {
 
 // GetRepo returns repo name
 func GetRepo(path string) (string, error) {
-	re := regexp.MustCompile("^.+/repositories/(.+)/(?:_manifests|_layers|_uploads)")
+	// The repository starts after the first "/repositories/" and ends before the
+	// first "_manifests", "_layers" or "_uploads" path segment: repository
+	// components never start with an underscore, whereas a component may be named
+	// "repositories" and a tag may be named e.g. "_uploads". Hence both groups are
+	// matched lazily and the marker must be a whole segment.
+	re := regexp.MustCompile("^.+?/repositories/(.+?)/(?:_manifests|_layers|_uploads)(?:/|$)")
 	matches := re.FindStringSubmatch(path)
 	if len(matches) < 2 {
 		return "", InvalidRegistryPathError{_repositories, path}
